@@ -215,7 +215,7 @@ func reifyMap(opts *options, to reflect.Value, from *Config, validators []valida
 
 	for k, value := range fields {
 		opts.activeFields = newFieldSet(parentFields)
-		key := reflect.ValueOf(k)
+		key := reflect.ValueOf(k).Convert(to.Type().Key())
 
 		old := to.MapIndex(key)
 		var v reflect.Value
